@@ -1250,6 +1250,8 @@ class Interp:
             # no backref: the application removes the child from the old collection itself
             if not m.insess(old) and m.insess(c):
                 self._add(old)
+            if m.insess(c) and not m.insess(p):
+                self._add(p)  # the target joins the session first, so that the moved child cannot drop out of it half-way
             if not self._can_unparent_for_move(c):
                 return False
             # load both collections first: a lazy load would autoflush between the two steps of the move (and, under
@@ -1360,6 +1362,13 @@ class Interp:
         mask = (b << 4) | c
         chosen = [k for i, k in enumerate(cands) if mask >> i & 1]
         old = m.children_of(p)
+        if not m.insess(p) and any(m.insess(k) for k in chosen if k not in old):
+            # the owner joins the session first (its cascade may pull its transient subtree in): everything below is
+            # judged on the resulting states
+            self._add(p)
+            cands2 = self.pool(lambda o: self.U.childish(o.kind) and self.linkable(o) and o is not p)
+            chosen = [k for k in chosen if k in cands2]
+            old = m.children_of(p)
         removed = [k for k in old if k not in chosen]
         added = [k for k in chosen if k not in old]
         if not all(self.linkable(k) and self._can_unparent(k) for k in removed):
@@ -1676,6 +1685,10 @@ class Interp:
             return False
         if o.state == "P" and self.U.uniq(o.kind) and any(o.vals.get(k) is not None for k in ("code", "ga", "gb")):
             return False  # (out-of-session objects carry no UNIQUE values in this universe)
+        if o.state == "P" and o.kind == "Parent" and "name" in o.vals and any(
+                k[0] == "Parent" and k[1] != o.uid and r.get("name") == o.vals["name"] for snap in [self.model] + self.model.stack
+                for k, r in (snap.rows if snap is self.model else snap["rows"]).items()):
+            return False  # it took over a key that a row still holds (or held when the transaction began)
         if o.state == "S":
             self._flush_if_dirty()
             if not (o.state == "S" and self._isolated(o)):
